@@ -30,9 +30,9 @@ CLAIMED = {
          "Same differential as C01 with a generator that creates closures in frames above other values, in loop bodies, nested, in a submodule, and calls each stored closure twice around a write to a visible variable (also through re-entering natives); every closure body logs a unique tag so a wrong body is visible; the reference uses shared Rc cells with a fresh cell per scope entry.",
          "Same trusted base as C01.",
          "DESIGN.md section 4, C06"),
- "C07": ("exploration", "proptest-driven model-based testing of table operation histories against an insertion-ordered Vec model (host API path)",
+ "C07": ("exploration", "proptest-driven model-based testing of table operation histories against an insertion-ordered Vec model, through the host API and (one case in 24) as a generated card program whose expected host-call log comes from the same model",
          "Random histories (<=120 ops) over 1-4 aliased tables through the host API (insert/get/append/pop/remove/len/nth_key/iter/keys), keys chosen to collide in the table's hash part at every capacity of its growth sequence and to probe value equality (fresh string objects per lookup, ints/reals/nil, reserved-hash ints); a Vec<(key,value)> model is compared after every operation on every table: length, full iteration order, keys(), nth_key and get of every present key. Search, not proof; the script-card path is covered by the program-level checks, not here.",
-         "Trusts the 20-line Vec model; memory limit raised so that no collection interferes (GC is C02's subject).",
+         "Trusts the 20-line Vec model; memory limit raised so that no collection interferes (GC is C02's subject). Script family: every table reached per operation through a variable, a global alias, a function parameter, a captured variable or a holder-table field; the reference interpreter must agree with the model (else a harness fault is reported); scripts never make a table reachable from itself nor read a row beyond the end.",
          "DESIGN.md section 4, C07"),
  "C15": ("exploration", "planted-fault testing: generated programs with one planted failing card at a generated position/call depth, expected trace computed by an independent child-numbering table (proptest-driven)",
          "An error-free generated program is assembled around one planted fault card (13 run-time and compile-time fault kinds) in a random operand slot, statement shape and nesting (if/else/repeat/while/composite/closure invoked on the spot), at the end of a chain of 0-4 static/dynamic script calls partly in a submodule, always followed by more code. The error kind, trace[0] (index equality and resolution through Module::get_card to the planted CardId) and trace[1..] (call cards innermost to outermost, closure invocations included) are asserted; for compile faults loc must resolve to the planted card. A reference run confirms that the plan reaches the planted card.",
@@ -51,7 +51,7 @@ CLAIMED = {
          "Trusts the conversion model (written from value.rs' documented TryFrom table) and the inspection hooks; when several parameters are unconvertible any of them may be named.",
          "DESIGN.md section 4, C18"),
  "C19": ("exploration", "proptest-driven algebraic-law checking over generated value triples with a numeric reference model for the ordering",
-         "Random triples of host-constructed values with deliberately related members (equal-content copies, reordered/prefix/deep-different tables, int/real twins, length twins, signed zeros, 2^53/2^63 edges); all ordered pairs are checked against the equivalence, hash-consistency (std hash and table-key aliasing), order/equality coherence, asymmetry and numeric-model laws exactly on the domains the statement gives. Search, not proof.",
+         "Random triples of host-constructed values with deliberately related members (equal-content copies incl. one built with another storage history - rows appended and popped again -, reordered/prefix/deep-different tables, int/real twins, length twins, signed zeros, 2^53/2^63 edges); all ordered pairs are checked against the equivalence, hash-consistency (std hash and table-key aliasing), order/equality coherence, asymmetry and numeric-model laws exactly on the domains the statement gives. Search, not proof.",
          "The numeric model encodes the statement's coercions (nil=0, string/table=length against a number); ints beyond 2^53 against reals and reordered tables are observed, not asserted.",
          "DESIGN.md section 4, C19"),
  "C08": ("exploration", "differential testing of generated module trees against an independent name-resolution model plus the reference interpreter (proptest-driven)",
